@@ -27,6 +27,7 @@ package packet
 
 // Decision table of one iteration of the receive loop (oracle: the statement of C20).
 //@ func (*receiver).ReceivePackets$1
+//@   locals data: []byte ;; ci: *github.com/google/gopacket.CaptureInfo ;; err: error ;; err: error
 //@   props C20 C12 C16 C03 C06 C11
 //@   observe ReadPacketData, ProcessPacketData, time.Sleep
 //@   loop 0 row cancel:        [ctxdone ; close errc] -> exit
@@ -53,6 +54,7 @@ package packet
 //@   ensures ret != nil
 
 //@ func (*sender).SendPackets$1
+//@   locals pkt: *BufferData ;; ok: bool ;; err: error ;; err: error
 //@   props C07 C12 C01 C16 C05 C19 C13 C11 C15
 //@   observe Bytes, WritePacketData, FreeSerializeBuffer
 //@   loop 0 row cancel: [ctxdone ; close done ; close errc] -> exit
@@ -93,10 +95,12 @@ package packet
 //@   ensures isptr(ret, receiver) && asptr(ret, receiver).sr == sr && asptr(ret, receiver).p == p
 //@ func (*sender).SendPackets
 //@   sig s, ctx, in
+//@   locals done: chan interface{} ;; errc: chan error
 //@   props C07 C12 C16 C19 C01 C05 C11 C13 C15
 //@   entry row start: [go (*sender).SendPackets$1{done: bind_d, errc: bind_e, in: bind_i, ctx: bind_c, s: bind_s2}] when ret0 == d && ret1 == e && i == in && c == ctx && s2 == s && d != e && chancap(e) >= 100 -> exit
 //@ func (*receiver).ReceivePackets
 //@   sig r, ctx
+//@   locals errc: chan error
 //@   props C20 C12 C16 C03 C06 C11
 //@   entry row start: [go (*receiver).ReceivePackets$1{errc: bind_e, ctx: bind_c, r: bind_r2}] when ret == e && c == ctx && r2 == r && chancap(e) >= 100 -> exit
 
